@@ -20,7 +20,7 @@ func init() {
 
 func runChain(prop string) {
 	run := core.NewRun(prop, "model_checking")
-	run.SetDeadline(core.Budget(160*time.Second, 25*time.Minute))
+	run.SetDeadline(core.Budget(240*time.Second, 25*time.Minute))
 	var st chainx.Stats
 	per := map[string]interface{}{}
 	scs := chainh.Scenarios(run.Tier)
@@ -30,6 +30,13 @@ func runChain(prop string) {
 	// the synthetic (non-initial-state) parts run first: they are cheap and must not depend on what the history
 	// exploration leaves of the budget
 	var syn chainh.SynthStats
+	if prop == "C08" {
+		// non-initial states: the context carried through two epoch transitions from synthetic registries (effective
+		// balances changing a lot at the boundary) vs a from-scratch context
+		chainh.SyntheticRegistriesFor(run, chainh.T4(chainh.AllForks), run.Tier == "thorough", &syn, "C08")
+		fmt.Fprintf(os.Stderr, "C08 synthetic registries: states=%d slot-transitions=%d\n", syn.States, syn.Transitions)
+		run.Set("synthetic_registry_states", syn.States)
+	}
 	if prop == "C07" {
 		// part (b): synthetic registries (states no short chain reaches)
 		var wg sync.WaitGroup
